@@ -8,6 +8,7 @@ trickles one byte every 0.9 x timeout.  Relay client: the real Static{Smtp,Lmtp}
 peer that stalls or trickles at every stage (PIPELINING on/off, STARTTLS, immediate TLS, AUTH, connect).
 Pipe and HTTP relays: the subprocess / origin never answers.
 """
+import itertools
 import socket as _socket
 import types
 
@@ -19,7 +20,7 @@ import slimta.edge.smtp as edge_smtp
 from slimta.edge.smtp import SmtpEdge
 from slimta.relay import TransientRelayError
 
-from engine.core import Chooser
+from engine.core import Chooser, Horizon
 from engine.result import Result
 from engine.vloop import World
 from fakes.vsock import Net, VContext
@@ -292,52 +293,133 @@ def relay_cases(tier):
 
 
 # ------------------------------------------------------------------ pipe / http
-def judge_pipe_http(kind):
-    res = {}
-    base = {'side': kind}
-    with World(Chooser(), max_steps=5000) as w:
-        env = make_envelope(0, 2)
-        if kind.startswith('pipe'):
+T_OTHER = 9.0
+
+
+def other_cases(tier):
+    """pipe: per delivery command {stuck, finishes after a fraction of the timeout}; http: where the origin stops."""
+    cases = []
+    fr = (0.35, 0.55, 0.9) if tier == 'quick' else (0.2, 0.35, 0.55, 0.9, 1.2)      # no sum of <= 3 of them is exactly 1
+    for per in (True, False):
+        for n in ((1, 2, 3) if per else (2,)):
+            calls = n if per else 1
+            for delays in itertools.product(('block',) + fr, repeat=calls):
+                if 'block' in delays[:-1] and any(d != 'block' for d in delays[delays.index('block') + 1:]):
+                    continue                    # nothing runs after a stuck command
+                cases.append({'kind': 'pipe', 'per_recipient': per, 'n': n, 'delays': list(delays)})
+    for mode in ('no-response', 'mid-headers', 'connect', 'mid-body', 'chunked-unfinished', 'slow-body'):
+        for ps in (None, 1):
+            for it in (None, 5.0):
+                cases.append({'kind': 'http', 'mode': mode, 'pool_size': ps, 'idle_timeout': it})
+    return cases
+
+
+def judge_other(case):
+    """-> list of (signature, message).  Every attempt must end, within the relay's single timeout counted from the moment
+    it could start (its own call, or the moment the one pooled client was free again)."""
+    recs = []
+    base = {'side': case['kind'] + ('' if case['kind'] == 'http' else ('-per-recipient' if case['per_recipient'] else '-whole'))}
+    with World(Chooser(), max_steps=5000, horizon=200.0) as w:
+        if case['kind'] == 'pipe':
             import slimta.relay.pipe as pipe
             from fakes.fakepopen import FakeSubprocess
-            w.patch(pipe, 'subprocess', FakeSubprocess(lambda a, s, k: 'block'))
-            relay = pipe.PipeRelay(['x', '{recipient}'], timeout=9.0)
-            relay.per_recipient = kind == 'pipe-per-recipient'
+            delays = case['delays']
+
+            def script(args, stdin, k):
+                d = delays[min(k, len(delays) - 1)]
+                if d == 'block':
+                    return 'block'
+                return ('sleep', d * T_OTHER, (0, b'', b''))
+            w.patch(pipe, 'subprocess', FakeSubprocess(script))
+            relay = pipe.PipeRelay(['x', '{recipient}'], timeout=T_OTHER)
+            relay.per_recipient = case['per_recipient']
+            envs = [make_envelope(0, case['n'])]
         else:
             import slimta.http as shttp
             from slimta.relay.http import HttpRelay
             from fakes.fakehttp import HttpPeer, response
             net = Net(w)
+            mode = case['mode']
+            full = response(200, 'OK', [('X-Smtp-Reply', '250; message="2.0.0 ok"')], b'0123456789')
 
             def create_connection(addr, timeout=None, source_address=None):
-                if kind == 'http-connect':
+                if mode == 'connect':
                     gevent.event.Event().wait()
                 c, s = net.pair(peername=addr)
-                mode = 'stall' if kind == 'http-no-response' else ('stall-after', response(200, 'OK')[:25])
-                gevent.spawn(HttpPeer(s, lambda req, k: mode).run)
+
+                def responder(req, k):
+                    if mode == 'no-response':
+                        return 'stall'
+                    if mode == 'mid-headers':
+                        return ('stall-after', full[:25])
+                    if mode == 'mid-body':
+                        return ('stall-after', full[:-7])            # complete header block, 3 of 10 body bytes
+                    if mode == 'chunked-unfinished':
+                        return ('stall-after', b'HTTP/1.1 200 OK\r\nX-Smtp-Reply: 250; message="2.0.0 ok"\r\nTransfer-Encoding: chunked\r\n\r\n3\r\nabc\r\n')
+                    if mode == 'slow-body':
+                        return ('trickle-body', full[:-10], full[-10:], 2.0)
+                gevent.spawn(HttpPeer(s, responder).run)
                 return c
             w.patch(shttp, 'socket', types.SimpleNamespace(create_connection=create_connection))
-            relay = HttpRelay('http://mx.test/deliver', ehlo_as='relay.test', timeout=9.0)
+            relay = HttpRelay('http://mx.test/deliver', ehlo_as='relay.test', timeout=T_OTHER, pool_size=case['pool_size'],
+                              idle_timeout=case['idle_timeout'])
+            envs = [make_envelope(0, 2), make_envelope(1, 2)]
 
-        def go():
+        def go(env, rec):
+            rec['start'] = w.now
             try:
-                res['outcome'] = ('returned', relay.attempt(env, 0))
+                rec['outcome'] = ('returned', relay.attempt(env, 0))
             except gevent.GreenletExit:
                 raise
             except BaseException as e:
-                res['outcome'] = ('raised', e)
-            res['end'] = w.now
-        gevent.spawn(go)
-        w.run_until_quiescent()
-    per, whole = classify(res.get('outcome'), env)
-    desc = '%s: attempt -> %s at t=%r (timeout 9)' % (kind, whole, res.get('end'))
-    if whole == 'blocked':
-        return [(dict(base, kind='attempt-never-returned'), desc)]
+                rec['outcome'] = ('raised', e)
+            rec['end'] = w.now
+
+        def driver():
+            for env in envs:
+                rec = {'env': env, 'outcome': None, 'start': None, 'end': None}
+                recs.append(rec)
+                g = gevent.spawn(go, env, rec)
+                g.join()                       # the next attempt starts when this one has returned
+        gevent.spawn(driver)
+        try:
+            w.run_until_quiescent()
+        except Horizon:
+            pass
     out = []
-    if res['end'] > 9.0 + 1e-6:
-        out.append((dict(base, kind='attempt-returned-late'), desc))
-    if not all(v == 'temp' for v in per.values()):
-        out.append((dict(base, kind='timeout-not-transient'), desc))
+    free_at = 0.0
+    for i, rec in enumerate(recs):
+        per, whole = classify(rec.get('outcome'), rec['env'])
+        desc = '%r: attempt #%d called at t=%r -> %s at t=%r (timeout %g)' % (case, i, rec['start'], whole, rec.get('end'), T_OTHER)
+        if whole == 'blocked':
+            out.append((dict(base, kind='attempt-never-returned', attempt=i), desc))
+            break
+        limit = max(rec['start'], free_at) + T_OTHER
+        if rec['end'] > limit + 1e-6:
+            out.append((dict(base, kind='attempt-returned-late', attempt=i), desc + '; allowed until t=%g' % limit))
+        if case['kind'] == 'pipe':
+            d = case['delays']
+            total, done = 0.0, 0
+            for x in d:
+                if x == 'block' or total + x * T_OTHER > T_OTHER - 1e-9:
+                    break
+                total += x * T_OTHER
+                done += 1
+            rc = list(rec['env'].recipients)
+            exp = {}
+            for j, r in enumerate(rc):
+                finished = (j < done) if case['per_recipient'] else (done >= 1)
+                exp[r] = 'delivered' if finished else 'temp'
+            if per != exp:
+                out.append((dict(base, kind='wrong-result-after-timeout', attempt=i), desc + '; got %r expected %r' % (per, exp)))
+        else:
+            # the single pooled client may stay busy with the previous response until that request's timeout
+            free_at = (rec['start'] + T_OTHER) if case['pool_size'] == 1 else 0.0
+            ok_modes = ('mid-body', 'chunked-unfinished', 'slow-body')       # complete status + header block was received
+            if case['mode'] not in ok_modes and not all(v == 'temp' for v in per.values()):
+                out.append((dict(base, kind='timeout-not-transient', attempt=i), desc))
+    if len(recs) < len(envs) and not out:
+        out.append((dict(base, kind='attempt-never-returned', attempt=len(recs)), '%r: attempt #%d never started' % (case, len(recs))))
     return out
 
 
@@ -375,21 +457,22 @@ def run_config(cfg, tier, seed):
             if i % 40 == cfg['k']:
                 res.sample({'side': 'relay', 'config': c, 'stage': stage, 'how': how})
     else:
-        for kind in ('pipe-per-recipient', 'pipe-whole', 'http-no-response', 'http-mid-headers', 'http-connect'):
-            vs = judge_pipe_http(kind)
+        for i, case in enumerate(other_cases(tier)):
+            vs = judge_other(case)
             res.evaluations += 1
             res.count('pipe_http_stalls')
-            res.interesting(kind)
-            res.outcome((kind, repr(vs)[:60]))
+            res.interesting(repr(case))
+            res.outcome((repr(case), repr(vs)[:60]))
             for sig, msg in vs:
-                res.violation(sig, msg, {'part': 'other', 'kind': kind})
-        res.sample({'side': 'pipe/http', 'kinds': 5})
+                res.violation(sig, msg, {'part': 'other', 'case': case})
+            if i % 25 == 0:
+                res.sample({'side': 'pipe/http', 'case': case})
     return res.as_dict()
 
 
 def vacuity(counters, tier):
     p = []
-    for k, n in (('server_stalls', 100), ('relay_stalls', 100), ('pipe_http_stalls', 5)):
+    for k, n in (('server_stalls', 100), ('relay_stalls', 100), ('pipe_http_stalls', 40)):
         if counters.get(k, 0) < n:
             p.append('%s=%d' % (k, counters.get(k, 0)))
     return p
@@ -401,7 +484,7 @@ def replay(rep):
     elif rep['part'] == 'relay':
         vs = judge_relay(rep['cfg'], rep['stage'], rep['how'])
     else:
-        vs = judge_pipe_http(rep['kind'])
+        vs = judge_other(rep['case'])
     if vs:
         return True, vs[0][1]
     return False, 'ended within its timeout'
